@@ -6,7 +6,7 @@
        one member, one constructor parameter and one initialiser per field, in declaration order. *)
 From Coq Require Import List String Ascii ZArith Bool Arith.
 From PDV Require Import Lib.StrUtil Marshal.Ident Marshal.IdentProofs Marshal.TypeStr Marshal.TypeStrProofs
-                        Jinja.Tir Jinja.Interp Gen.Templates Jinja.FragFlags Jinja.FragEnums Jinja.FragRecord Jinja.FragDecl.
+                        Jinja.Tir Jinja.Interp Gen.Templates Jinja.FragFlags Jinja.FragEnums Jinja.FragRecord Jinja.FragDecl Jinja.FragIface.
 Import ListNotations.
 Open Scope string_scope. Open Scope list_scope.
 
@@ -91,6 +91,16 @@ Theorem C02_record_decl_java : forall fl,
   exec java_cfg java_assign_loop (dstate fl) = (dstate fl, lines java_assign fl 0).
 Proof. intros fl. repeat split; [apply java_fields_render | apply java_ctor_render | apply java_assign_render]. Qed.
 Print Assumptions C02_record_decl_java.
+
+(* interface declarations: one C++ method declaration per IDL method, in order, with its parameter list, for every method list *)
+Theorem C02_interface_decl_cpp : forall ml,
+  exec cpp_cfg iface_loop (istate ml) = (istate ml, concat "" (map method_decl ml)).
+Proof. exact iface_methods_render. Qed.
+Print Assumptions C02_interface_decl_cpp.
+
+Theorem C02_interface_loop_is_the_template : Slice.nth_for "methods" 0 t_cpp_header_interface_jinja2_hpp = Some iface_loop.
+Proof. vm_compute. reflexivity. Qed.
+Print Assumptions C02_interface_loop_is_the_template.
 
 Theorem C02_members_in_declaration_order : forall h l idx k f, nth_error l k = Some f ->
   exists pre post, lines h l idx = (pre ++ h f (idx + k) (match skipn (S k) l with [] => true | _ => false end) ++ post)%string.
